@@ -30,10 +30,13 @@ impl<T: AsRef<[u8]>> BufferCursor<T> {
 impl<T: AsRef<[u8]>> SeekableAsset for BufferCursor<T> {
     fn seek(&mut self, pos: SeekFrom) -> Result<usize> {
         let new_pos = match pos {
-            SeekFrom::Start(pos) => pos as isize,
-            SeekFrom::End(pos) => self.data.as_ref().len() as isize + pos,
-            SeekFrom::Current(pos) => self.pos as isize + pos,
+            SeekFrom::Start(pos) => isize::try_from(pos).ok(),
+            SeekFrom::End(pos) => (self.data.as_ref().len() as isize).checked_add(pos),
+            SeekFrom::Current(pos) => (self.pos as isize).checked_add(pos),
         };
+        // Base position is never negative, so only the overflow in the positive direction is
+        // possible. Such position is far behind the end of any buffer
+        let new_pos = new_pos.ok_or(IoError::UnexpectedEof)?;
         if new_pos < 0 {
             return Err(IoError::SeekBeforeStart);
         }
